@@ -609,4 +609,108 @@ class Fuzz(Part):
             shutil.rmtree(crashes, ignore_errors=True)
 
 
-PARTS = [Tokens(), Unicode(), Trees(), Fuzz(), PrintOptions(), Tracebacks()]
+class AnyCharInSyntax(Part):
+    name = "any-character-in-syntax"
+    custom = True
+    exhaustive = True
+    rule = ("for every code point c of the Basic Multilingual Plane (surrogates aside) and every 64th astral one: c inserted at the syntax-significant positions of colour, style, "
+            "markup and SGR templates - before / after a number inside rgb() and color(), inside a hex colour, before a colour name, between the words of a style definition, after a "
+            "tag's '=', inside an SGR parameter list and an OSC 8 introducer - fed to Color.parse / Style.parse / Style.normalize / markup.render / AnsiDecoder: a value or the documented "
+            "error, whatever character it is (white space the parser strips but int() does not, digits of other scripts, separators, controls); non-trivial = c is not ASCII")
+    budget = {"quick": (16, 1), "thorough": (16, 1)}
+    TEMPLATES = [("Color.parse", "rgb(1,%s2,3)"), ("Color.parse", "rgb(1,2%s,3)"), ("Color.parse", "rgb(%s1,2,3%s)"), ("Color.parse", "color(%s5)"), ("Color.parse", "color(5%s)"), ("Color.parse", "#ff%s000"),
+                 ("Color.parse", "%sred"), ("Style.parse", "bold%sred"), ("Style.parse", "on %srgb(1,2,3)"), ("Style.parse", "not%sbold"), ("Style.parse", "link %s"), ("Style.normalize", "bold%son red"),
+                 ("markup.render", "[link=%s]x[/link]"), ("markup.render", "[rgb(1,%s2,3)]x"), ("markup.render", "[%s]x[/%s]"), ("AnsiDecoder", "\x1b[1%sm x"), ("AnsiDecoder", "\x1b[38;5;%s1m x"),
+                 ("AnsiDecoder", "\x1b]8;%s;http://x\x1b\\y\x1b]8;;\x1b\\")]
+
+    def run_shard(self, tier, shard, nshards, seed, stats, deadline, known):
+        from rich.color import Color
+        from rich.style import Style
+
+        n = nt = 0
+        found = {}
+        cps = [cp for cp in range(shard, 0x10000, nshards) if not 0xD800 <= cp <= 0xDFFF] + [cp for cp in range(0x10000 + shard * 64, 0x110000, 64 * nshards)]
+        for i, cp in enumerate(cps):
+            c = chr(cp)
+            for entry, tpl in self.TEMPLATES:
+                s = tpl.replace("%s", c)
+                n += 1
+                try:
+                    run_entry(entry, s)
+                except SutError as e:
+                    sig = "C14/exc/%s/%s" % (entry, e.bucket)
+                    if sig not in found:
+                        found[sig] = (s, entry, repr(e.exc))
+            if cp > 127:
+                nt += len(self.TEMPLATES)
+            if i % 4096 == 0:
+                for fn in (Color.parse, Style.parse, Style.normalize):
+                    fn.cache_clear()
+                if time.time() > deadline:
+                    stats.capped = True
+                    break
+        stats.evaluations += n
+        stats.nontrivial_count_distinct += nt
+        if not stats.capped:
+            stats.done += 1
+        stats.samples.append((1, {"shard": shard, "code points": len(cps), "templates": [t for _, t in self.TEMPLATES[:4]]}, "range"))
+        for sig, (s, entry, detail) in found.items():
+            if known.match(sig):
+                stats.excluded_known[known.match(sig)["id"]] = stats.excluded_known.get(known.match(sig)["id"], 0) + 1
+                continue
+            stats.found[sig] = {"spec": {"entry": entry, "s": s}, "clause": "undocumented-exception", "detail": "%s(%r) raised %s" % (entry, s[:200], detail), "size": len(s), "part": self.name}
+
+    def replay(self, spec, ctx):
+        return Tokens().replay(spec, ctx)
+
+
+class DeepTrees(Part):
+    name = "deep-trees"
+    rule = ("a Tree nested 50 .. 1500 levels deep (one child per level, or a few siblings per level) measured, printed, and printed inside Panel.fit / a table cell / Columns / Align / "
+            "Padding on a console 20 .. 400 cells wide: Tree walks its nodes iteratively, so depth alone never raises (RecursionError included); non-trivial = deeper than 400 levels")
+    budget = {"quick": (4, 12), "thorough": (16, 60)}
+
+    def strategy(self, tier):
+        return st.builds(lambda d, sib, w, how: {"depth": d, "siblings": sib, "W": w, "how": how}, st.one_of(st.integers(50, 1500), st.sampled_from([480, 495, 500, 600, 990, 1000, 1200])),
+                         st.integers(0, 2), st.sampled_from([20, 80, 400]), st.sampled_from(["measure", "print", "panel-fit", "table", "columns", "align", "padding"]))
+
+    def check(self, spec, ctx):
+        from rich.console import Console
+        from rich.tree import Tree
+        from rich.panel import Panel
+        from rich.table import Table
+        from rich.columns import Columns
+        from rich.align import Align
+        from rich.padding import Padding
+        from rich.measure import Measurement
+
+        root = sut(Tree, "r")
+        node = root
+        for i in range(spec["depth"]):
+            for j in range(spec["siblings"]):
+                sut(node.add, "s%d" % j)
+            node = sut(node.add, "n%d" % i)
+        con = sut(Console, file=io.StringIO(), width=spec["W"], color_system=None, _environ={})
+        how = spec["how"]
+        if how == "measure":
+            sut(Measurement.get, con, root, spec["W"])
+        elif how == "print":
+            sut(con.print, root)
+        elif how == "panel-fit":
+            sut(con.print, Panel.fit(root))
+        elif how == "table":
+            t = Table("a", "b")
+            t.add_row(root, "x")
+            sut(con.print, t)
+        elif how == "columns":
+            sut(con.print, Columns([root, "x"]))
+        elif how == "align":
+            sut(con.print, Align(root, "center"))
+        else:
+            sut(con.print, Padding(root, 1))
+        ctx.cls(how)
+        if spec["depth"] > 400:
+            ctx.nontrivial = True
+
+
+PARTS = [Tokens(), AnyCharInSyntax(), DeepTrees(), Unicode(), Trees(), Fuzz(), PrintOptions(), Tracebacks()]
